@@ -60,6 +60,7 @@ type Scenario struct {
 	AutoRestart            bool
 	Pipeline               bool
 	NotifyCh               bool
+	SlowFSM                bool // FSM applications are granted one by one by the environment (after scripted steps, before timers)
 	Fine                   bool // branch on thread steps (preemption bounded)
 	RCL                    bool // RestoreCommittedLogs
 	NoStoreFaultBeforeStep int  // store faults only count from this script position on
@@ -255,7 +256,7 @@ func (w *World) start(n *Node) {
 	n.bootErr = nil
 	n.r = nil
 	n.store.onRestart()
-	n.fsm = &VFSM{node: n.id, inc: n.inc, hooks: w.mon}
+	n.fsm = &VFSM{node: n.id, inc: n.inc, hooks: w.mon, Slow: w.sc.SlowFSM}
 	n.trans = &VTrans{w: w, n: n, inc: n.inc, cons: make(chan raft.RPC, 256)}
 	conf := *n.conf
 	if w.sc.NotifyCh {
@@ -795,6 +796,15 @@ func (w *World) envOptions() []envOpt {
 			addDef(envOpt{label: "step " + st.Name, cost: c, do: do})
 		} else if devs&DevStepEarly != 0 && st.EarlyWhen != nil && safeWhen(st.EarlyWhen, w) {
 			alts = append(alts, envOpt{label: "step " + st.Name + " (early)", cost: 1, do: do})
+		}
+	}
+	// slow FSMs: the next application proceeds
+	if w.sc.SlowFSM {
+		for _, n := range w.nodes {
+			n := n
+			if n.up && n.fsm != nil && n.fsm.Asked > n.fsm.Permits {
+				addDef(envOpt{label: fmt.Sprintf("fsm n%d applies", n.id), cost: 1, do: func() { n.fsm.Permits++ }})
+			}
 		}
 	}
 	// 4. auto restart
